@@ -1188,6 +1188,8 @@ func cmdCorr(seed uint64, n, exh int) {
 	}
 	// k tracks with arbitrary ids / traf order / missing tracks / empty truns, huge durations, virtual huge mdat boxes
 	corrMulti(g, n/3)
+	// byte level of decode + Encode: data offsets of single-trun fragments
+	corrReencode(g, n/6)
 }
 
 func main() {
